@@ -171,3 +171,18 @@ Example C05_faithful_nonvacuous :
   Compose2.faithful Compose2.cInp Compose2.cLabels /\
   (forall inp, ~ Compose2.faithful inp Compose2.cx1) /\ (forall inp, ~ Compose2.faithful inp Compose2.cx2).
 Proof. exact (conj Compose2.cLabels_faithful (conj Compose2.cx1_is_unfaithful Compose2.cx2_is_unfaithful)). Qed.
+
+
+(* ... and with "not tripped by fail-fast" on the configuration (the bridge of `C04_without_fail_fast_the_flow_never_breaks`) *)
+Theorem C05_without_fail_fast_visible_failure_with_retries_left_is_retried :
+  forall c ls s tr inp, cf_fail_fast c = false ->
+    exec c ls = Some (s, tr) -> Compose2.faithful inp ls -> pc s = Done ->
+    forall pre post f r sc cu l,
+      tr = pre ++ EvScen f r sc (Some (cu, l)) ScFinished :: post -> 0 < l ->
+      Compose2.failed_evs (SchedP9.out_evs (sc, cu) tr) = true ->
+      exists mid post', post = mid ++ EvScen f r sc (Some (cu + 1, l - 1)) ScStarted :: post'.
+Proof.
+  intros c ls s tr inp FF H F D.
+  exact (Compose2.visible_failure_with_retries_left_is_retried c ls s tr inp H F D (ReviewP.no_fail_fast_no_break c ls s tr FF H)).
+Qed.
+Print Assumptions C05_without_fail_fast_visible_failure_with_retries_left_is_retried.
